@@ -7,11 +7,11 @@ let zi = z_of_int and iz = int_of_z
 let chain comp = match comp with
   | 1 -> [WAligned (zi 32)] | 2 | 3 | 4 | 6 -> [WPass] | 5 -> [WAny] | 7 -> [WSegregator (zi 64)]
   | 8 -> [WAligned (zi 16); WPass] | 9 -> [WPass; WAligned (zi 64)] | 11 -> [WPass; WAligned (zi 32)]
-  | 12 -> [WAligned (zi 16); WPass; WSegregator (zi 64)] | 13 -> [WPass; WAligned (zi 128); WPass] | _ -> [WPass]
-let tracked comp leaf = match comp with 2 | 8 | 9 | 12 | 13 -> true | 10 -> leaf = 1 | _ -> false
+  | 12 -> [WAligned (zi 16); WPass; WSegregator (zi 64)] | 13 -> [WPass; WAligned (zi 128); WPass] | 15 -> [WAligned (zi 32); WPass] | _ -> [WPass]
+let tracked comp leaf = match comp with 2 | 8 | 9 | 12 | 13 | 14 | 15 -> true | 10 -> leaf = 1 | _ -> false
 
 (* what the tracker sees: the request after the wrappers outside of it *)
-let tracker_prefix comp = match comp with 8 -> [WAligned (zi 16)] | 12 -> [WAligned (zi 16)] | 13 -> [WPass; WAligned (zi 128)] | _ -> []
+let tracker_prefix comp = match comp with 8 -> [WAligned (zi 16)] | 15 -> [WAligned (zi 32)] | 12 -> [WAligned (zi 16)] | 13 -> [WPass; WAligned (zi 128)] | _ -> []
 let show_call op (c : lcall) = Printf.sprintf "L%d:%s:%d:%d:%d" (int_of_nat c.lc_leaf) op (iz c.lc_count) (iz c.lc_size) (iz c.lc_align)
 
 let run_fwd () =
@@ -44,7 +44,7 @@ let run_fwd () =
               let lop = pre ^ verb ^ (if m.lc_kind = KArray then "a" else "n") in
               let exp = show_call lop m in
               if leafs <> [exp] then diverge ("model leaf call " ^ exp) line;
-              let texp = if tracked comp (int_of_nat m.lc_leaf) then
+              let texp = if tracked comp (int_of_nat m.lc_leaf) && not ((comp = 14 || comp = 15) && op.[0] = 't') then
                   [Printf.sprintf "T:%s:%d:%d:%d" (let o = if op.[0] = 't' then String.sub op 1 2 else op in o) (iz m.lc_count) (iz m.lc_size) (iz (forward (tracker_prefix comp) req).lc_align)] else [] in
               if trk <> texp then diverge ("tracker must see " ^ String.concat " " texp) line
             end
